@@ -14,6 +14,7 @@ import (
 	"github.com/criyle/go-sandbox/container"
 	"github.com/criyle/go-sandbox/pkg/forkexec"
 	"github.com/criyle/go-sandbox/pkg/mount"
+	"github.com/criyle/go-sandbox/pkg/unixsocket"
 	"github.com/criyle/go-sandbox/ptracer"
 	"github.com/criyle/go-sandbox/runner"
 	"github.com/criyle/go-sandbox/runner/ptrace"
@@ -204,6 +205,34 @@ func runC16(res *Result, d *Driver, tier string, seed uint64) {
 	res.Rule = "a helper controller process (this binary) builds a container / starts a traced program whose descendants ignore signals, reports the init pid, its pid namespace and the program pid; the harness SIGKILLs the controller when it announces a protocol point (verif delay-point announcements on its stderr: host.execve.sent, host.waitForDone, container.started via the init's stderr) and at random instants, for idle / Execve (sync before and after exec) / file operations / ptrace, also for containers that run programs under their own user id and have served file operations before; during the synchronisation callback of a ptrace and of a namespace launch; for the tracer used directly on a launcher with and without a seccomp filter; and for a program that creates a child with clone(CLONE_UNTRACED) (open known finding); " +
 		"afterwards no process of the container's pid namespace, resp. of the traced program's process group, may be alive within the bound. non-trivial = every case; distinct = (mode, kill point)."
 	rng := NewRng(seed, "C16", 1)
+	// the rule the model rests on ("a receive on the closed, empty control socket is end of file"), on the real socket
+	// pair of an environment: one end is closed (the controller is gone), a receive blocked on the other end — and one
+	// started afterwards — must return promptly
+	for variant := 0; variant < 2; variant++ {
+		a, b, err := unixsocket.NewSocketPair()
+		if err != nil {
+			fatal("socketpair: %v", err)
+		}
+		got := make(chan error, 1)
+		if variant == 0 {
+			go func() { _, _, e := b.RecvMsg(make([]byte, 64)); got <- e }()
+			time.Sleep(20 * time.Millisecond)
+			a.Close()
+		} else {
+			a.Close()
+			go func() { _, _, e := b.RecvMsg(make([]byte, 64)); got <- e }()
+		}
+		res.Case(fmt.Sprintf("eof on the control socket pair, variant %d", variant), true, "socket-eof")
+		select {
+		case e := <-got:
+			if e == nil {
+				res.Mismatch(Mismatch{Kind: "oracle", What: "a receive on the control socket whose peer is closed reports it (C16_container_dies_by_eof: the init leaves serve on end of file)", Input: "unixsocket.NewSocketPair(); close one end; RecvMsg on the other", Impl: "a message was delivered", Oracle: "violates"})
+			}
+		case <-time.After(5 * time.Second):
+			res.Mismatch(Mismatch{Kind: "oracle", What: "a receive on the control socket whose peer is closed returns (end of file): an init whose controller died before the parent-death signal was armed leaves only this way (C16_container_dies_by_eof)", Input: fmt.Sprintf("unixsocket.NewSocketPair(); %s; RecvMsg on the other end", []string{"RecvMsg blocked, then the peer is closed", "the peer is closed, then RecvMsg"}[variant]), Impl: "RecvMsg still blocked after 5 s", Oracle: "violates"})
+		}
+		b.Close()
+	}
 	self, _ := os.Executable()
 	type kc struct{ mode, point string }
 	var cases []kc
